@@ -220,9 +220,115 @@ func (g *Gen) genFacts() {
 	}
 	sb.WriteString("/-- Package-level encodings `X = <pkg>.NewEncoding(alphabet).WithPadding(pad)`: (package, var, constructor package, alphabet, padding rune; -1 = none). -/\n")
 	fmt.Fprintf(&sb, "def encodings : List (String × String × String × Bytes × Int) := [\n%s\n]\n\n", strings.Join(encs, ",\n"))
+	sb.WriteString(g.sharedStateFacts())
 	sb.WriteString(g.goroutineFacts())
 	sb.WriteString("end GoCrypt.Gen.Facts\n")
 	g.emit("Facts.lean", sb.String())
+}
+
+// sharedStateFacts: (1) every package-level variable whose type can carry shared mutable state by design —
+// anything from sync / sync/atomic, maps, channels — as (package, name, type); (2) every use of such a
+// variable in a function body as (package, function, "var.Method" | "var[...]=" | "var=" | "&var" | "var (read)"),
+// deduplicated and sorted, without line numbers.
+func (g *Gen) sharedStateFacts() string {
+	var vars, uses []string
+	isShared := func(t types.Type) bool {
+		switch u := t.Underlying().(type) {
+		case *types.Map, *types.Chan:
+			return true
+		case *types.Pointer:
+			t = u.Elem()
+		}
+		if n, ok := t.(*types.Named); ok && n.Obj().Pkg() != nil {
+			pp := n.Obj().Pkg().Path()
+			return pp == "sync" || pp == "sync/atomic"
+		}
+		return false
+	}
+	for _, k := range sortedKeys(g.pkgs) {
+		p := g.pkgs[k]
+		scope := p.Types.Scope()
+		names := scope.Names()
+		sort.Strings(names)
+		shared := map[*types.Var]bool{}
+		for _, n := range names {
+			if v, ok := scope.Lookup(n).(*types.Var); ok && isShared(v.Type()) {
+				shared[v] = true
+				vars = append(vars, fmt.Sprintf("  (%s, %s, %s)", strLit(k), strLit(n), strLit(types.TypeString(v.Type(), func(q *types.Package) string { return q.Name() }))))
+			}
+		}
+		seen := map[string]bool{}
+		add := func(fn, what string) {
+			rec := fmt.Sprintf("  (%s, %s, %s)", strLit(k), strLit(fn), strLit(what))
+			if !seen[rec] {
+				seen[rec] = true
+				uses = append(uses, rec)
+			}
+		}
+		for _, f := range p.Syntax {
+			if strings.HasSuffix(g.fset.Position(f.Pos()).Filename, "_verif.go") {
+				continue // instrumentation under the verif build tag
+			}
+			for _, d := range f.Decls {
+				fd, ok := d.(*ast.FuncDecl)
+				if !ok || fd.Body == nil {
+					continue
+				}
+				handled := map[*ast.Ident]bool{}
+				varOf := func(e ast.Expr) (*ast.Ident, bool) {
+					id, ok := e.(*ast.Ident)
+					if !ok {
+						return nil, false
+					}
+					v, ok := p.TypesInfo.Uses[id].(*types.Var)
+					return id, ok && shared[v]
+				}
+				ast.Inspect(fd.Body, func(n ast.Node) bool {
+					switch x := n.(type) {
+					case *ast.CallExpr:
+						if sel, ok := x.Fun.(*ast.SelectorExpr); ok {
+							if id, ok := varOf(sel.X); ok {
+								handled[id] = true
+								add(fd.Name.Name, id.Name+"."+sel.Sel.Name)
+							}
+						}
+					case *ast.AssignStmt:
+						for _, l := range x.Lhs {
+							if ix, ok := l.(*ast.IndexExpr); ok {
+								if id, ok := varOf(ix.X); ok {
+									handled[id] = true
+									add(fd.Name.Name, id.Name+"[...]=")
+								}
+							}
+							if id, ok := varOf(l); ok {
+								handled[id] = true
+								add(fd.Name.Name, id.Name+"=")
+							}
+						}
+					case *ast.UnaryExpr:
+						if x.Op == token.AND {
+							if id, ok := varOf(x.X); ok {
+								handled[id] = true
+								add(fd.Name.Name, "&"+id.Name)
+							}
+						}
+					case *ast.Ident:
+						if id, ok := varOf(x); ok && !handled[id] {
+							add(fd.Name.Name, id.Name+" (read)")
+						}
+					}
+					return true
+				})
+			}
+		}
+	}
+	sort.Strings(uses)
+	var sb strings.Builder
+	sb.WriteString("/-- Package-level variables of a type that carries shared mutable state by design (sync, sync/atomic, maps, channels): (package, name, type). -/\n")
+	fmt.Fprintf(&sb, "def sharedVars : List (String × String × String) := [\n%s\n]\n\n", strings.Join(vars, ",\n"))
+	sb.WriteString("/-- Every use of those variables in function bodies (instrumentation files excluded): (package, function, use). -/\n")
+	fmt.Fprintf(&sb, "def sharedVarUses : List (String × String × String) := [\n%s\n]\n\n", strings.Join(uses, ",\n"))
+	return sb.String()
 }
 
 // goroutineFacts: one record per `go` statement of the module's non-test code. For each: where it is,
